@@ -146,7 +146,11 @@ class BinaryOutputStream(OutputStream):
     def _mark_global(self, name):
         self._globals.add(name)
         if name in self._symbols:
-            self._symbols[name].binding = "global"
+            symbol = self._symbols[name]
+            if symbol.binding != "global":
+                symbol.binding = "global"
+                # Global symbols can be found by name:
+                self.obj_file.symbol_map[name] = symbol
 
     def emit_debug(self, data):
         """Emit debug information."""
